@@ -153,7 +153,9 @@ def run_conditions(rec, module, conds, default_timeout=60, twins=True, procs=Non
             else:
                 rec.oblig(name, INCONCLUSIVE, "confirmed, but no reachability witness was obtained for the twin (%s)" % tw[1], secs, structure)
         elif kind == "error":
-            m = _CALL.search(detail)
+            # CrossHair appends " with crosshair.patch_to_return({...})" when the path went through an intercepted standard-library call
+            # (random, time): the replay runs the plain function (real randomness), so that part is dropped
+            m = _CALL.search(re.sub(r"\s+with crosshair\.patch_to_return\(\{.*?\}\)", "", detail))
             if not m:
                 rec.oblig(name, INCONCLUSIVE, "unparsed CrossHair error: " + detail[:200], secs, structure)
                 continue
